@@ -312,6 +312,9 @@ def replace_suite(ctx):
 
 
 def run(ctx):
+    from harness.props import sem_common
+
+    sem_common.run_semantics_suite(ctx, ctx.pick(60, 600))
     ctx.rule("(gate, candidate list) pairs from exact decompositions, their perturbations by 1e-12..1 in one angle, a dropped/"
              "duplicated/reordered element, control/target swapped, a relative phase on one operand, an extra gate on a foreign "
              "qubit, the empty list; for every gate position k a decomposer correct before k and wrong/raising/foreign at k; "
